@@ -32,12 +32,13 @@ func main() {
 }
 
 type engine struct {
-	ctx  *Ctx
-	prop string
-	res  *Result
-	drv  *Nadrv
-	rr   *realRunner
-	rng  *RNG
+	ctx       *Ctx
+	prop      string
+	res       *Result
+	drv       *Nadrv
+	rr        *realRunner
+	rng       *RNG
+	caseFlags map[string]any
 }
 
 func parseFlags(s string) map[string]string {
@@ -123,10 +124,10 @@ func sortStrings(a []string) {
 }
 
 type planOutcome struct {
-	real     realResult
-	model    string // raw answer of the driver
-	agree    bool
-	exact    bool // the model's script is literally the real one (no tie exemption)
+	real       realResult
+	model      string // raw answer of the driver
+	agree      bool
+	exact      bool   // the model's script is literally the real one (no tie exemption)
 	crash      string // known crash class of the unrepaired code, "" if none
 	oracleOnly bool   // model and code disagree on the call list; the oracle still runs on the real script
 }
@@ -542,10 +543,22 @@ func (e *engine) fail(check, pr string, attrs map[string]any, what string, c *Ca
 		return
 	}
 	sig := map[string]any{"pred": pr, "check": check, "backend": "NSX"}
+	for k, v := range e.caseFlags { // side conditions of the INITIAL pair of the case (information; no known entry pins them)
+		sig[k] = v
+	}
 	for k, v := range attrs {
 		sig[k] = v
 	}
 	e.res.Fail(sig, what, c)
+}
+
+func hasUnexplained(res *Result) bool {
+	for _, f := range res.Failures {
+		if p, _ := f.Sig["pred"].(string); p == "other" || strings.HasPrefix(p, "crash") || strings.HasSuffix(p, "_refused") || strings.HasSuffix(p, "_accepted") || p == "plan_depends_on_map_order" {
+			return true
+		}
+	}
+	return false
 }
 
 func nontrivial(calls []Call) bool {
@@ -566,6 +579,7 @@ func (e *engine) oneCase(c *Case) {
 	for _, k := range []string{"accepted", "idsOK", "policyIds", "unmanagedIndep", "targetWF", "storeWF", "sortTies", "extRefs", "idemOK", "distinctT"} {
 		res.Count("class:" + k + "=" + cl[k])
 	}
+	e.caseFlags = map[string]any{"in_unmanagedIndep": cl["unmanagedIndep"] == "1", "in_compactT": cl["compactT"] == "1", "in_distinctT": cl["distinctT"] == "1"}
 	if c.Mode == "http" && e.rng.Chance(25) {
 		e.loadTie(c)
 	}
@@ -718,7 +732,12 @@ func (e *engine) oneCase(c *Case) {
 		res.Count("resume:cuts")
 		sk := ro.states[k]
 		if !ro.flagsNonEmptyOK(sk) {
-			res.Count("resume:state-with-empty-group")
+			if ro.flagsNonEmptyOK(c.Store) {
+				// cannot happen: the strict store refuses the call that would empty an expression
+				res.Count("resume:state-with-empty-group")
+			} else {
+				res.Count("resume:empty-group-already-on-the-manager")
+			}
 		}
 		pk := e.planBoth(&c2, sk, "resume plan")
 		if pk.crash != "" {
@@ -783,8 +802,8 @@ type bitPair struct {
 	m    []byte
 }
 
-func (p bitPair) LenA() int            { return p.a }
-func (p bitPair) LenB() int            { return p.b }
+func (p bitPair) LenA() int           { return p.a }
+func (p bitPair) LenB() int           { return p.b }
 func (p bitPair) Equal(i, j int) bool { return p.m[i*p.b+j] == '1' }
 
 func (e *engine) myersStream(n int) {
@@ -873,16 +892,31 @@ func runProp(ctx *Ctx, prop string) *Result {
 		e.oneCase(&c)
 		return res
 	}
-	for _, c := range corpus() {
-		e.oneCase(c)
+	// experiment knob (mutation studies): VH_C04_ONLY=stream,stream restricts the run to these generator
+	// streams; never set by ./check
+	only := os.Getenv("VH_C04_ONLY")
+	if only == "" {
+		for _, c := range corpus() {
+			e.oneCase(c)
+		}
+		e.myersStream(ctx.N(300, 20000))
 	}
-	e.myersStream(ctx.N(300, 20000))
 	type sw struct {
 		name   string
 		weight int
 	}
 	streams := []sw{{"base", 60}, {"big", 5}, {"bigties", 3}, {"ties", 6}, {"idclash", 5}, {"idsuffix", 6}, {"rawpolicy", 3}, {"unmref", 3}, {"spaced", 3},
 		{"dupcontent", 5}, {"emptygroup", 2}, {"undefgroup", 2}, {"rawbad", 6}}
+	if only != "" {
+		var l []sw
+		for _, s := range streams {
+			if strings.Contains(","+only+",", ","+s.name+",") {
+				l = append(l, s)
+			}
+		}
+		streams = l
+		res.Notes = append(res.Notes, "restricted to streams "+only)
+	}
 	total := 0
 	for _, s := range streams {
 		total += s.weight
@@ -890,7 +924,9 @@ func runProp(ctx *Ctx, prop string) *Result {
 	n := ctx.N(600, 14000)
 	deadline := time.Now().Add(time.Duration(ctx.N(55, 780)) * time.Second)
 	for i := 0; i < n; i++ {
-		if len(res.Disagreements) >= 20 {
+		// the code does not behave like the model: go on (within the time budget) until the oracle has a
+		// failing input that no finding explains, so that the verdict comes with a replay; give up after 250 cases
+		if len(res.Disagreements) >= 20 && (i >= 250 || hasUnexplained(res)) {
 			res.Notes = append(res.Notes, fmt.Sprintf("stopped after %d generated cases: 20 disagreements recorded", i))
 			break
 		}
